@@ -135,7 +135,28 @@ def rule_error_codes(ctx, errs):
                 handled.add(int(lab['value']))
     anchor(handled, 'code -> message mapping (if chain or switch) in reb_string_for_particle_error')
     fo = tu.func('reb_particle_from_orbit_err')
-    oerrs = [int(render(e['inner'][1])) for e in walk(cfront.body(fo)) if is_assign(e) and render(e['inner'][0]).replace(' ', '') == '(*err)']
+    oerrs = []
+    for e in walk(cfront.body(fo)):
+        if not (is_assign(e) and render(e['inner'][0]).replace(' ', '') == '(*err)'):
+            continue
+        v0 = strip(e['inner'][1], casts=True)
+        if v0.get('kind') == 'IntegerLiteral':
+            oerrs.append(int(v0['value']))
+            continue
+        # *err = code; with `code` the result of a status function split off from the constructor: the codes are its returns
+        src = None
+        if v0.get('kind') == 'DeclRefExpr':
+            for d_ in walk(cfront.body(fo)):
+                if d_.get('kind') == 'VarDecl' and d_.get('id') == v0['referencedDecl'].get('id') and 'init' in d_:
+                    ini_ = [c_ for c_ in d_.get('inner', []) if c_.get('kind') not in ('FullComment',)]
+                    src = strip(ini_[-1], casts=True) if ini_ else None
+        elif v0.get('kind') == 'CallExpr':
+            src = v0
+        h_ = tu.funcs.get(callee_name(src)) if src is not None and src.get('kind') == 'CallExpr' else None
+        rets_ = [strip(x['inner'][0], casts=True) for x in walk(cfront.body(h_)) if x.get('kind') == 'ReturnStmt' and x.get('inner')] if h_ is not None else []
+        if not rets_ or not all(r_.get('kind') == 'IntegerLiteral' for r_ in rets_):
+            raise AnalysisError('R11.2: the error code stored at src/tools.c:%s (%s) is neither a literal nor the result of a function that returns literals' % (line_of(e), render(e['inner'][1])))
+        oerrs += [int(r_['value']) for r_ in rets_ if int(r_['value']) != 0]
     for code in sorted(set(errs) | set(oerrs)):
         n += 1
         if code not in handled:
@@ -616,8 +637,22 @@ def rule_mass_guard_agreement(ctx):
     got = {}
     for fname in ('reb_particle_from_orbit_err', 'reb_orbit_from_particle_err'):
         fn = tu.func(fname)
-        L = extents.lets(fn)
-        for ifs in walk(cfront.body(fn)):
+        from .. import normal
+        # the checks may have been split off into a status function (returns the error code): its parameters stand for
+        # the arguments it is called with
+        scopes = [(fn, extents.lets(fn))]
+        for h in normal.with_new_helpers(tu, fname):
+            if h['name'] == fname:
+                continue
+            for call in walk(cfront.body(fn)):
+                if call.get('kind') == 'CallExpr' and callee_name(call) == h['name']:
+                    L_ = dict(extents.lets(h))
+                    for p_, a_ in zip(cfront.params(h), call_args(call)):
+                        if p_.get('name'):
+                            L_[p_['name']] = render(a_)
+                    scopes.append((h, L_))
+        for f_, L in scopes:
+          for ifs in walk(cfront.body(f_)):
             if ifs.get('kind') != 'IfStmt':
                 continue
             c = strip(ifs['inner'][0])
@@ -631,7 +666,9 @@ def rule_mass_guard_agreement(ctx):
             if not tiny:
                 continue
             q = extents.canon(extents.resolve(render(c['inner'][0]), L))
-            sets_err = any(is_assign(e) and 'err' in render(e['inner'][0]) for e in walk(ifs['inner'][1]))
+            sets_err = any(is_assign(e) and 'err' in render(e['inner'][0]) for e in walk(ifs['inner'][1])) \
+                or (f_ is not fn and any(x.get('kind') == 'ReturnStmt' and x.get('inner') and strip(x['inner'][0], casts=True).get('kind') == 'IntegerLiteral'
+                                         and strip(x['inner'][0], casts=True).get('value') != '0' for x in walk(ifs['inner'][1])))
             if sets_err and ('.m' in q or q.endswith('m')) and fname not in got:
                 got[fname] = (q, line_of(ifs))
     anchor(len(got) == 2, 'massless-primary tests (quantity < TINY) of the orbit constructor and of the read-back')
